@@ -29,7 +29,7 @@ type ev struct {
 type cworld struct {
 	resume   [8]time.Time // clock when a request's handler resumed after its in-flight yield
 	cb       *cbreaker.CircuitBreaker
-	evs      [64]ev
+	evs      [128]ev
 	n        int
 	arrSeq   [8]int
 	arrClock [8]time.Time
@@ -71,6 +71,20 @@ func (e eff) Exec() error {
 	return nil
 }
 
+// transitionLogger: the breaker announces every state change through its logger at the very instant it makes it
+// (under its lock): that gives the oracle the exact instant of each trip (event kind 4).
+type transitionLogger struct{ w *cworld }
+
+//go:norace
+func (l transitionLogger) Debug(msg string, a ...any) {
+	if strings.Contains(msg, "setting state to") && len(a) >= 2 {
+		l.w.add(ev{kind: 4, thread: -1, clock: clock.Now(), state: fmt.Sprint(a[1])})
+	}
+}
+func (transitionLogger) Info(string, ...any)  {}
+func (transitionLogger) Warn(string, ...any)  {}
+func (transitionLogger) Error(string, ...any) {}
+
 func stateOf(cb *cbreaker.CircuitBreaker) string {
 	s := cb.String()
 	i := strings.Index(s, "state=")
@@ -97,7 +111,7 @@ func newBreaker(w *cworld, code *int) *cbreaker.CircuitBreaker {
 		rw.WriteHeader(*code)
 	})
 	cb, err := cbreaker.New(h, "NetworkErrorRatio() > 0.5", cbreaker.FallbackDuration(cFallback), cbreaker.RecoveryDuration(cRecovery),
-		cbreaker.CheckPeriod(100*time.Millisecond), cbreaker.OnTripped(eff{w, true}), cbreaker.OnStandby(eff{w, false}))
+		cbreaker.CheckPeriod(100*time.Millisecond), cbreaker.OnTripped(eff{w, true}), cbreaker.OnStandby(eff{w, false}), cbreaker.Logger(transitionLogger{w}))
 	if err != nil {
 		panic(err)
 	}
@@ -211,19 +225,38 @@ func (w *cworld) shielded(fallback time.Duration) []vrt.Failure {
 
 func (w *cworld) shieldedFor(prop string, fallback time.Duration) []vrt.Failure {
 	var f []vrt.Failure
-	// the breaker may not be observed OUT of the tripped state earlier than a fallback duration after a
-	// completion observed it tripped (the trip happened no earlier than that request's handler resumed)
+	// "from the instant the breaker trips": the breaker announced the trip at instant T (event kind 4); a request that
+	// enters the protected handler later in the event order, at a clock reading below T + fallback, was passed
+	// inside the window
 	for j := 0; j < w.n; j++ {
-		if w.evs[j].kind != 2 || w.evs[j].state != "tripped" || w.resume[w.evs[j].thread].IsZero() {
+		if w.evs[j].kind != 4 || w.evs[j].state != "tripped" {
 			continue
 		}
-		notBefore := w.resume[w.evs[j].thread]
+		T := w.evs[j].clock
 		for i := j + 1; i < w.n; i++ {
-			if w.evs[i].kind == 2 && w.evs[i].state != "tripped" && w.evs[i].clock.Before(notBefore.Add(fallback)) {
-				f = append(f, vrt.Failure{Key: prop + ":left-tripped-state-before-fallback-elapsed:concurrent",
-					Detail: fmt.Sprintf("a completion observed the breaker tripped (trip no earlier than +%v); at +%v, less than the fallback duration %v later, request %d observed it %s", notBefore.Sub(base), w.evs[i].clock.Sub(base), fallback, w.evs[i].thread, w.evs[i].state)})
+			if w.evs[i].kind == 0 && w.evs[i].clock.Before(T.Add(fallback)) && w.arrSeq[w.evs[i].thread] > j {
+				f = append(f, vrt.Failure{Key: prop + ":request-passed-during-fallback:after-announced-trip",
+					Detail: fmt.Sprintf("the breaker announced its trip at +%v (fallback %v); request %d arrived after that and entered the protected handler at +%v", T.Sub(base), fallback, w.evs[i].thread, w.evs[i].clock.Sub(base))})
 				return f
 			}
+		}
+	}
+	// the breaker may not LEAVE the tripped state earlier than a fallback duration after the trip: both instants are
+	// announced by the breaker itself (transition events, kind 4)
+	for j := 0; j < w.n; j++ {
+		if w.evs[j].kind != 4 || w.evs[j].state != "tripped" {
+			continue
+		}
+		for i := j + 1; i < w.n; i++ {
+			if w.evs[i].kind != 4 {
+				continue
+			}
+			if w.evs[i].state != "tripped" && w.evs[i].clock.Before(w.evs[j].clock.Add(fallback)) {
+				f = append(f, vrt.Failure{Key: prop + ":left-tripped-state-before-fallback-elapsed:concurrent",
+					Detail: fmt.Sprintf("the breaker announced its trip at +%v and its move to %s at +%v, less than the fallback duration %v later", w.evs[j].clock.Sub(base), w.evs[i].state, w.evs[i].clock.Sub(base), fallback)})
+				return f
+			}
+			break // the next announced transition ends this trip episode
 		}
 	}
 	for i := 0; i < w.n; i++ {
@@ -279,7 +312,7 @@ func retripRaceFor(prop string, bound int) *sched.Scenario {
 			w.resumed(t)
 			rw.WriteHeader(code)
 		})
-		cb, err := cbreaker.New(h, "NetworkErrorRatio() > 0.5", cbreaker.FallbackDuration(fb), cbreaker.RecoveryDuration(rc), cbreaker.CheckPeriod(100*time.Millisecond))
+		cb, err := cbreaker.New(h, "NetworkErrorRatio() > 0.5", cbreaker.FallbackDuration(fb), cbreaker.RecoveryDuration(rc), cbreaker.CheckPeriod(100*time.Millisecond), cbreaker.Logger(transitionLogger{w}))
 		if err != nil {
 			panic(err)
 		}
@@ -360,8 +393,8 @@ func recoveryRace(nreq, bound int, final int) *sched.Scenario {
 					}
 					continue
 				}
-				if e.kind == 3 {
-					continue
+				if e.kind == 3 || e.kind == 4 {
+					continue // (resumption and announced-transition events are not admission decisions)
 				}
 				if state != "recovering" {
 					break // a re-trip or the end of recovery: the ramp no longer applies
@@ -418,7 +451,7 @@ func mixedRace(bound int) *sched.Scenario {
 			rw.WriteHeader(codes[t])
 		})
 		cb, err := cbreaker.New(h, "NetworkErrorRatio() > 0.5", cbreaker.FallbackDuration(cFallback), cbreaker.RecoveryDuration(cRecovery),
-			cbreaker.CheckPeriod(100*time.Millisecond), cbreaker.OnTripped(eff{w, true}))
+			cbreaker.CheckPeriod(100*time.Millisecond), cbreaker.OnTripped(eff{w, true}), cbreaker.Logger(transitionLogger{w}))
 		if err != nil {
 			panic(err)
 		}
@@ -495,6 +528,63 @@ func mixedRace(bound int) *sched.Scenario {
 	return sc
 }
 
+// skewRace (C05): one failing request is in flight; the clock moves by seconds while its completion is on its way
+// to the breaker's lock; later the clock moves to 2s before the end of the fallback period counted FROM THE TRIP
+// (which the breaker announces), and two more requests arrive 200ms apart with a recovery period of 100ms: were the
+// shield armed from an earlier clock reading it would already be over.
+func skewRace(prop string, bound int) *sched.Scenario {
+	sc := &sched.Scenario{Name: fmt.Sprintf("breaker-trip-clock-skew/bound=%d", bound), Bound: bound}
+	const fb, rc = 10 * time.Second, 100 * time.Millisecond
+	sc.New = func() *sched.Instance {
+		clock.VerifInstall(base, nil)
+		w := &cworld{}
+		h := http.HandlerFunc(func(rw http.ResponseWriter, r *http.Request) {
+			t := int(r.Header.Get("T")[0] - '0')
+			w.add(ev{kind: 0, thread: t, clock: clock.Now()})
+			vrt.Yield()
+			w.resumed(t)
+			if t == 1 {
+				rw.WriteHeader(502)
+				return
+			}
+			rw.WriteHeader(200)
+		})
+		cb, err := cbreaker.New(h, "NetworkErrorRatio() > 0.5", cbreaker.FallbackDuration(fb), cbreaker.RecoveryDuration(rc), cbreaker.CheckPeriod(100*time.Millisecond), cbreaker.Logger(transitionLogger{w}))
+		if err != nil {
+			panic(err)
+		}
+		w.cb = cb
+		inst := &sched.Instance{Names: []string{"failing", "clock", "late"}}
+		inst.Bodies = []func(){
+			func() { w.request(1) },
+			func() {
+				vrt.Yield()
+				clock.VerifAdvance(5 * time.Second)
+				vrt.Yield()
+				clock.VerifAdvance(8 * time.Second)
+			},
+			func() {
+				vrt.Yield()
+				w.request(3)
+				clock.VerifAdvance(200 * time.Millisecond)
+				w.request(4)
+			},
+		}
+		inst.Check = func(x *vrt.Exec) []vrt.Failure { return w.shieldedFor(prop, fb) }
+		inst.Outcome = func() string {
+			var sb strings.Builder
+			for i := 0; i < w.n; i++ {
+				if w.evs[i].kind == 4 {
+					fmt.Fprintf(&sb, "%s@%v ", w.evs[i].state, w.evs[i].clock.Sub(base))
+				}
+			}
+			return sb.String()
+		}
+		return inst
+	}
+	return sc
+}
+
 // standbyRace (C18): the breaker has tripped, the fallback period is over, recovery has begun and its period is
 // over as well (sequential preparation). Then several requests arrive at once while the clock keeps moving: the
 // breaker returns to standby ONCE - the on-standby side effect runs exactly once, the on-tripped one not at all.
@@ -559,7 +649,7 @@ func Scenarios(prop, tier string) []*sched.Scenario {
 	case "C12":
 		return []*sched.Scenario{recoveryRace(3, b, 200), recoveryRace(2, b+1, 200), recoveryRace(3, b, 502), retripRaceFor("C12", b)}
 	case "C05":
-		return []*sched.Scenario{tripRace(prop, 3, b), tripRace(prop, 2, b+1), retripRace(b)}
+		return []*sched.Scenario{tripRace(prop, 3, b), tripRace(prop, 2, b+1), retripRace(b), skewRace(prop, b+1)}
 	case "C18":
 		return []*sched.Scenario{tripRace(prop, 3, b), tripRace(prop, 2, b+1), mixedRace(b + 1), standbyRace(prop, 2, b+1), standbyRace(prop, 3, b)}
 	default:
